@@ -157,7 +157,7 @@ def load_known():
         raise AnalysisError(f"known_findings.json unreadable: {e}") from e
 
 
-def finish(chk: Check, seed: int, cmdline: str) -> int:
+def finish(chk: Check, seed: int, cmdline: str, write=True) -> int:
     known = [k for k in load_known() if k.get("property") == chk.prop and k.get("status") == "known"]
     known_keys = {k["key"]: k for k in known}
     viol = [i for i in chk.instances if i.verdict == VIOLATED]
@@ -174,6 +174,11 @@ def finish(chk: Check, seed: int, cmdline: str) -> int:
     for kind, n in chk.min_counts.items():
         if by_kind.get(kind, 0) < n:
             count_errors.append(f"rule {kind}: {by_kind.get(kind, 0)} instances, at least {n} confirmed by hand")
+    chk.new_violations = new_viol
+    chk.undecided_armed = und
+    chk.count_errors = count_errors
+    if not write:
+        return 1 if new_viol else 2 if (und or count_errors) else 0
     EVIDENCE.mkdir(exist_ok=True)
     fdir = EVIDENCE / "findings"
     replay_paths = []
@@ -259,7 +264,7 @@ def finish(chk: Check, seed: int, cmdline: str) -> int:
     return 0
 
 
-def run_check(prop: str, tier: str, root=None, overrides=None, quiet=False) -> tuple[int, Check | None]:
+def run_check(prop: str, tier: str, root=None, overrides=None, quiet=False, write=True) -> tuple[int, Check | None]:
     from . import rules
 
     seed = int(os.environ.get("VERIF_SEED", "0") or 0)
@@ -275,7 +280,7 @@ def run_check(prop: str, tier: str, root=None, overrides=None, quiet=False) -> t
             mod.run(chk)
         except AnalysisError as e:
             chk.add("ENGINE", "anchor", ("?", "?", 0), VANISHED, str(e))
-        return finish(chk, seed, cmdline), chk
+        return finish(chk, seed, cmdline, write=write), chk
     except Exception:
         if not quiet:
             print(f"ANALYSIS-ERROR property={prop} internal error")
